@@ -114,6 +114,8 @@ class Intervals:
             whole = [d for d in ds if not d[4]]
             if len(whole) == 1 and whole[0][2] == "call":
                 c = b.call_at(whole[0][0])
+                if re.search(r"^std::iter::(Iterator::position|Iterator::rposition|DoubleEndedIterator::rposition|ExactSizeIterator::rposition)$", c.decl):
+                    return Ival(0, LEN_MAX - 1, True)       # an index into an in-memory sequence
                 if c.decl == "std::iter::Iterator::next":
                     for l2 in b.origins(c.args[0]):
                         if l2["kind"] == "agg" and l2["stmt"]["rv"].get("adt", "") == "std::ops::Range":
@@ -126,9 +128,22 @@ class Intervals:
         if proj and not (len(proj) == 1 and proj[0] in (".0",)):
             return None  # field of a struct / deref: only the type range is known
         whole = [d for d in ds if not d[4]]
-        if len(whole) != 1 or (1 <= l <= b.argc):
+        if not whole or len(whole) > 6 or (1 <= l <= b.argc) or len(whole) != len(ds):
             return None
-        (bb, idx, kind, payload, lhs_proj) = whole[0]
+        if len(whole) > 1:
+            # assigned on several paths (match arms, if / else): the hull of the alternatives
+            lo, hi, ln = BIG, -BIG, True
+            for d_ in whole:
+                v_ = self._eval_def(d_, proj, at_bb, seen)
+                if v_ is None:
+                    return None
+                lo, hi, ln = min(lo, v_.lo), max(hi, v_.hi), ln and v_.len
+            return Ival(lo, hi, ln)
+        return self._eval_def(whole[0], proj, at_bb, seen)
+
+    def _eval_def(self, d_, proj, at_bb, seen):
+        b = self.body
+        (bb, idx, kind, payload, lhs_proj) = d_
         if kind == "call":
             return self.eval_call(b.call_at(bb), proj, at_bb, seen)
         rv = payload["rv"]
@@ -478,9 +493,10 @@ class Auditor:
                 self.stats[how[0]] += 1
                 self.rep.ok(self.rule, "%s: %s %s discharged (%s)" % (fmt_key(body.path), s.kind, s.what, how[1]), s.loc())
                 continue
-            if k in self.allow:
-                reason, pre = self.allow[k]
-                self.used_allow.add(k)
+            ka = k if k in self.allow else re.sub(r"#\d+$", "#*", k)      # `...|#*`: every site of that kind in that body whose precondition holds
+            if ka in self.allow:
+                reason, pre = self.allow[ka]
+                self.used_allow.add(ka)
                 ok, why = pre(self.f, s) if pre else (True, "no precondition")
                 if ok:
                     self.stats["allow"] += 1
@@ -683,6 +699,46 @@ class Auditor:
                     if holds_edge is not None and cst > k_ and body.dominates(holds_edge, c.bb) and body.pred(holds_edge) == [sb]:
                         return ("index", "remove(%d) is only reached when the vector's length was tested to be %d" % (k_, cst))
             return None
+        if s.kind == "unwrap" and c is not None and c.decl.endswith("Result::<T, E>::unwrap") and c.args:
+            # `taken.try_into().unwrap()` into `[u8; N]` where `taken` is what nom's `take(N)` cut off: a slice of exactly N bytes
+            for lf in body.origins(c.args[0], passthrough={}):
+                if lf["kind"] == "call" and lf["call"].decl == "std::convert::TryInto::try_into" and len(lf["call"].gargs or []) == 2:
+                    m_ = re.fullmatch(r"\[u8; (\d+)\]", lf["call"].gargs[1])
+                    if m_ and lf["call"].gargs[0] == "&[u8]":
+                        from terms import TermBuilder, render
+                        t_ = render(TermBuilder(body).term(lf["call"].args[0]))
+                        m2 = re.match(r"std::ops::FnMut::call_mut\(nom::bytes::complete::take\((\d+)_usize\), .*\)<Ok>\.0\.1$", t_)
+                        if m2 and m2.group(1) == m_.group(1):
+                            return ("index", "the slice was cut off by take(%s): it converts into [u8; %s]" % (m2.group(1), m_.group(1)))
+        if s.kind == "bufread-consume":
+            # consume(n) is within its contract when n is (bounded by) the length of the slice fill_buf just returned
+            from terms import TermBuilder, render
+            t_ = render(TermBuilder(body).term(c.args[1])) if len(c.args) > 1 else ""
+            if re.fullmatch(r"(core::slice::<impl \[T\]>::len\(std::io::BufRead::fill_buf\(.*\)(<Ok>\.0)?\)|0_usize)", t_) or \
+                    re.match(r"(std::cmp::min|std::cmp::Ord::min|MIN)\(.*core::slice::<impl \[T\]>::len\(std::io::BufRead::fill_buf\(", t_):
+                return ("index", "consume() is given (at most) the length of the buffer fill_buf returned")
+            return None
+        if s.kind == "iter-arith":
+            ga = c.gargs or []
+            acc = ga[1] if len(ga) > 1 else ""
+            if re.fullmatch(r"f(32|64)", acc) or not re.fullmatch(r"[ui](8|16|32|64|128|size)", acc):
+                return ("interval", "accumulation over %s does not trap" % (acc or "a non-integer type"))
+            # sum of n in-memory items of at most 32 bits each, widened to 64 bits or more, stays below 2^64
+            m = re.fullmatch(r"std::iter::(?:Map|Copied|Cloned)<(?:std::iter::(?:Copied|Cloned)<)?std::slice::Iter<'_, [ui](8|16|32)>>?(?:, \{closure@([^}]*)\})?>", c.self_ty or "")
+            if m and c.decl.endswith("::sum") and re.fullmatch(r"[ui](64|128)", acc):
+                if m.group(2) is None:
+                    return None
+                where = ":".join(m.group(2).split(":")[:2])
+                cands = [cb for cb in self.f.closures_of(body) if cb.span == where]
+                pure = 0
+                for cb in cands:
+                    if len([1 for bb_ in cb.reachable() if cb.term(bb_)["t"] == "call"]) == 0:
+                        casts = [st for bb_ in cb.reachable() for st in cb.blocks[bb_]["stmts"] if st.get("k") == "assign" and st["rv"]["r"] not in ("use", "ref")]
+                        if len(casts) == 1 and casts[0]["rv"]["r"] == "cast":
+                            pure += 1
+                if cands and pure == len(cands):
+                    return ("interval", "sum of widened %s-bit items of an in-memory slice stays below 2^64" % m.group(1))
+            return None
         if s.kind == "vec-precondition" and c.decl.endswith("::drain") and len(c.args) > 1:
             pl = op_place(c.args[1])
             ity = body.local_ty(pl["l"]) if pl is not None and not pl["p"] else c.args[1].get("k", {}).get("ty", "")
@@ -760,13 +816,24 @@ class Auditor:
                         ln = iv.of_operand(len_op, bb)
                         if start is not None and start.lo >= 0 and end is not None and ln is not None and end.hi <= ln.lo:
                             return True
-                        # same base?
+                        # same base?  (the end may be the minimum of several lengths: it bounds an index into each of them)
                         eroots = set()
-                        for l3 in body.origins(rv["ops"][1], passthrough={}):
-                            if l3["kind"] == "call" and re.search(r"::len$", l3["call"].decl):
-                                eroots |= self.base_roots(body, l3["call"].args[0])
-                            if l3["kind"] == "un" and l3["stmt"]["rv"]["op"] == "PtrMetadata":
-                                eroots |= self.base_roots(body, l3["stmt"]["rv"]["a"])
+                        work_ = [rv["ops"][1]]
+                        n_ = 0
+                        while work_ and n_ < 24:
+                            n_ += 1
+                            o_ = work_.pop()
+                            if op_place(o_) is None:
+                                continue
+                            for l3 in body.origins(o_, passthrough={}):
+                                if l3["kind"] == "call" and re.search(r"::len$", l3["call"].decl):
+                                    eroots |= self.base_roots(body, l3["call"].args[0])
+                                elif l3["kind"] == "un" and l3["stmt"]["rv"]["op"] == "PtrMetadata":
+                                    eroots |= self.base_roots(body, l3["stmt"]["rv"]["a"])
+                                elif l3["kind"] == "call" and l3["call"].decl in ("std::cmp::Ord::min", "std::cmp::min"):
+                                    work_ += list(l3["call"].args)
+                                elif l3["kind"] == "cast":
+                                    work_.append(l3["stmt"]["rv"]["o"])
                         lroots = set()
                         for l3 in body.origins(len_op, passthrough={}):
                             if l3["kind"] == "un" and l3["stmt"]["rv"]["op"] == "PtrMetadata":
